@@ -22,8 +22,8 @@ Theorem C08_binding : forall value (is_none : value -> bool) ty (is_any : ty -> 
 Proof. exact binding_local. Qed.
 Print Assumptions C08_binding.
 
-(* ... and when one of the consulted conversions does raise something else (observed only for the bare
-   pydantic.BaseModel annotation), the exception leaves parse_params and run_task: the body is not invoked *)
+(* ... and when one of the consulted conversions does raise something else (observed only for a
+   user-defined pydantic validator that itself raises TypeError), the exception leaves parse_params and run_task: the body is not invoked *)
 Theorem C08_foreign_exception_not_invoked : forall value (is_none : value -> bool) ty conv
     (sg : list (param value)) h args kw,
   NoDup (map pname sg) ->
@@ -177,7 +177,7 @@ Example C08_binding_nonvacuous :
   run_task nat nis_none nat ex_conv true ex_sig ex_hints [1; 0] [] = Invoked [RPos 1; RPos 0; RDefault; RDefault; RKw 9; RDefault].
 Proof. vm_compute. repeat split. Qed.
 
-(* def f(m: BaseModel) sent a dict: the one consulted conversion raises AttributeError *)
+(* def f(n: NZ) sent [1], NZ's validator raising TypeError: the one consulted conversion raises *)
 Example C08_foreign_exception_nonvacuous :
   run_task nat nis_none nat (fun t v => if (t =? 1) && (v =? 1) then CRaise else CSwallowed) true
            [mkParam 0 KPos false None] [(0, 1)] [1] [] = ParseRaised.
